@@ -51,13 +51,12 @@ pub(super) async fn receive_batch_multipart(
         boundary,
         Constraints::new().size_limit({
             let mut limit = SizeLimit::new();
-            if let (Some(max_file_size), Some(max_num_files)) =
-                (opts.max_file_size, opts.max_num_files)
-            {
-                limit = limit.whole_stream((max_file_size * max_num_files) as u64);
-            }
             if let Some(max_file_size) = opts.max_file_size {
-                limit = limit.per_field(max_file_size as u64);
+                // the file size limit applies to the file parts only
+                limit = limit
+                    .per_field(max_file_size as u64)
+                    .for_field("operations", u64::MAX)
+                    .for_field("map", u64::MAX);
             }
             limit
         }),
